@@ -8,7 +8,17 @@
      fill <buflen> <answers>      (util/entropy.c entropy_read_fill over scripted read() answers)
         answers: comma-separated, "e" = read returned -1, "z" = 0 bytes (EOF), else hex bytes
         -> "ok <hex> used=<k>" | "fail used=<k>"
-   With a "spec" prefix the SP 800-90A spec is run instead of the model of the C (no ent= part). *)
+     os <sessions> <reqs>         (crypto_entropy.c over the real util/entropy.c over scripted system calls)
+        sessions: comma-separated, one per open(): <o|x>:<reads>:<closes>; "-" = none
+           o / x = open succeeds / fails; reads: "/"-separated read() answers: hex bytes, "z" = 0 (EOF),
+           "e" = -1 EIO, "i" = -1 EINTR, "-" = none; closes: string over k (0), i (-1 EINTR), e (-1 EIO), "-" = none
+           an exhausted script answers -1 to everything
+        -> "<r1> ... | K=<hex> V=<hex> c=<n> i=<0|1> used=<sessions consumed> sys=<s1>+<s2>..."
+           si = "x" (open failed) or "o<len>r<reads consumed>c<closes consumed>", len = size of the first read
+     sess <buflen> <session>      (util/entropy.c entropy_read alone)
+        -> "ok <hex> sys=<s>" | "fail sys=<s>"
+   With a "spec" prefix the SP 800-90A spec (over DrbgOsSpec.v for os / sess) is run instead of the model
+   of the C (no ent= / sys= part). *)
 let split_commas s = if s = "-" then [] else String.split_on_char ',' s
 let parse_oracle s = List.map (fun e -> if e = "f" then None else Some (bytes_of_hex e)) (split_commas s)
 let parse_reqs s = List.map (fun e -> n_of_int (int_of_string e)) (split_commas s)
@@ -18,6 +28,29 @@ let show_ev evs =
   let l = List.filter_map (function EvInstantiate (n, ok) -> sh n ok | EvReseed (n, ok, _) -> sh n ok | EvGenerate _ -> None) evs in
   if l = [] then "-" else String.concat "+" l
 let zeros32 = String.make 64 '0'
+let parse_read e = if e = "e" || e = "i" then RdErr else if e = "z" then RdBytes [] else RdBytes (bytes_of_hex e)
+let parse_session t =
+  match String.split_on_char ':' t with
+  | [o; r; c] ->
+    { s_open = (o = "o");
+      s_reads = (if r = "-" then [] else List.map parse_read (String.split_on_char '/' r));
+      s_closes = (if c = "-" then [] else
+                    List.init (String.length c) (fun i -> match c.[i] with 'k' -> CloseOk | 'i' -> CloseEintr | _ -> CloseErr)) }
+  | _ -> failwith "bad session"
+let parse_sessions s = List.map parse_session (split_commas s)
+let show_session n s =
+  if not s.s_open then "x" else
+  match entropy_read_w (n_of_int n) s with
+  | Ok (_, (nr, nc)) -> Printf.sprintf "o%dr%dc%d" n (int_of_nat nr) (int_of_nat nc)
+  | _ -> "abort"
+(* the entropy acquisitions of the trace, each against the next session *)
+let show_sys evs ss =
+  let rec go evs ss acc = match evs with
+    | [] -> List.rev acc
+    | EvGenerate _ :: r -> go r ss acc
+    | (EvInstantiate (n, _) | EvReseed (n, _, _)) :: r ->
+      (match ss with [] -> go r [] ("x" :: acc) | s :: ss' -> go r ss' (show_session (int_of_nat n) s :: acc)) in
+  let l = go evs ss [] in if l = [] then "-" else String.concat "+" l
 let () = iter_lines (fun line ->
   match split_ws line with
   | ["drbg"; o; r] ->
@@ -36,6 +69,32 @@ let () = iter_lines (fun line ->
                    (hex_of_bytes (sK s)) (hex_of_bytes (sV s)) (int_of_n (sctr s)) (List.length o - List.length o')
      | None -> Printf.printf "%s | K=%s V=%s c=0 i=0 used=%d\n" (show_results rs) zeros32 zeros32
                  (List.length o - List.length o'))
+  | ["os"; o; r] ->
+    let ss = parse_sessions o in
+    (match drbg_os_run (parse_reqs r) ss with
+     | Ok (((rs, st), ss'), evs) ->
+       Printf.printf "%s | K=%s V=%s c=%d i=%d used=%d sys=%s\n" (show_results rs)
+         (hex_of_bytes (dKey st)) (hex_of_bytes (dV st)) (int_of_n (dctr st)) (if dinst st then 1 else 0)
+         (List.length ss - List.length ss') (show_sys evs ss)
+     | Fault -> print_endline "fault" | AssertFail -> print_endline "assert" | OutOfFuel -> print_endline "fuel")
+  | ["spec"; "os"; o; r] ->
+    let ss = parse_sessions o in
+    let ((rs, st), o') = drbg_os_spec_run (parse_reqs r) ss in
+    (match st with
+     | Some s -> Printf.printf "%s | K=%s V=%s c=%d i=1 used=%d\n" (show_results rs)
+                   (hex_of_bytes (sK s)) (hex_of_bytes (sV s)) (int_of_n (sctr s)) (List.length ss - List.length o')
+     | None -> Printf.printf "%s | K=%s V=%s c=0 i=0 used=%d\n" (show_results rs) zeros32 zeros32
+                 (List.length ss - List.length o'))
+  | ["sess"; n; t] ->
+    let s = parse_session t and n = int_of_string n in
+    (match entropy_read_w (n_of_int n) s with
+     | Ok (Some b, _) -> Printf.printf "ok %s sys=%s\n" (hex_of_bytes b) (show_session n s)
+     | Ok (None, _) -> Printf.printf "fail sys=%s\n" (show_session n s)
+     | Fault -> print_endline "fault" | AssertFail -> print_endline "assert" | OutOfFuel -> print_endline "fuel")
+  | ["spec"; "sess"; n; t] ->
+    (match spec_session (nat_of_int (int_of_string n)) (parse_session t) with
+     | Some b -> Printf.printf "ok %s\n" (hex_of_bytes b)
+     | None -> print_endline "fail")
   | ["fill"; n; a] ->
     let ans = List.map (fun e -> if e = "e" then RdErr else if e = "z" then RdBytes [] else RdBytes (bytes_of_hex e)) (split_commas a) in
     (match entropy_read_fill_m (n_of_int (int_of_string n)) ans with
